@@ -326,6 +326,37 @@ def segments(ctx, prog, rep, tag):
         d["no-smaller-fixed-trim"] = all(c[1] >= spec["header_bytes"]["SdoNormal"] for c in fixed)
         d["trim-operands"] = ["%s=%s" % c for c in consts]
     rep.ob(P, "payload-after-own-headers" + tag, all(v for k, v in d.items() if k != "trim-operands"), "mailbox_write_read::<R> hands back the response with R's own header length removed (a segment response has 9 header bytes, not 12); %s" % d, loc=b.span)
+    # 2b. the abort code sits behind the 12 byte initiate-style header whatever request was answered (an abort of
+    # a segment request is not a 9 byte segment response): the trim on the abort path is the fixed header length
+    ab = [x for x in q.aggregates(b, None) if x[2]["rv"].get("ak") == "adt" and x[2]["rv"].get("variant") == "Aborted"]
+    ab_blocks = {x[0] for x in ab}
+    abtr = [t for t in trims if t not in succ and any(ob in b.reachable_from(t.bb, avoid={u.bb for u in trims if u is not t}) for ob in ab_blocks)]
+    d2 = {"one-abort-trim": len(abtr) == 1, "abort-error-built": bool(ab)}
+    if len(abtr) == 1:
+        consts2 = []
+
+        def collect2(op, depth=0):
+            ca = _cargs_of(op)
+            if ca is not None:
+                consts2.append((ca, q.const_int(op)))
+                return
+            l = q.local_of(op)
+            if l is None or depth > 4:
+                ci = q.const_int(op)
+                if ci is not None:
+                    consts2.append(("literal", ci))
+                return
+            for (bi, si, kind, payload) in b.defs().get(l, []):
+                if kind == "call":
+                    for a in payload.args:
+                        collect2(a, depth + 1)
+                elif kind == "assign":
+                    for a in payload["rv"].get("a", []):
+                        collect2(a, depth + 1)
+        collect2(abtr[0].args[1])
+        d2["fixed-12-byte-header"] = bool(consts2) and all(c[1] == spec["header_bytes"]["SdoNormal"] for c in consts2)
+        d2["trim-operands"] = ["%s=%s" % c for c in consts2]
+    rep.ob(P, "abort-code-after-fixed-header" + tag, all(v for k, v in d2.items() if k != "trim-operands"), "the abort code is decoded after trimming the fixed 12 byte header, independent of the request type R; %s" % d2, loc=b.span)
     # declared header sizes
     from .. import wirelayout as wl
     import os
@@ -361,6 +392,26 @@ def segments(ctx, prog, rep, tag):
             d["starts-at-first-fragment"] = len(inits) == 1 and inits[0][2] in ("assign", "call") and not (inits[0][2] == "assign" and q.const_int(inits[0][3]["rv"].get("a", [{}])[0]) == 0)
     else:
         d["one-segment-request-site"] = False
+    # 3b. an empty *last* segment is a legitimate end of the transfer: the "segment without data makes no progress"
+    # error may only be raised for a segment that is not the last one
+    if len(seg) == 1:
+        last_sw = [cd for cd in q.conds(r) if cd.kind in ("bool", "int") and getattr(cd, "operand", None) is not None and q.is_field_read(r, cd.operand, "SdoHeaderSegmented", "is_last_segment")]
+        zero = []
+        for cd in q.conds(r):
+            if cd.bb in loop_blocks and cd.kind == "cmp" and cd.op in ("Eq", "Ne") and (q.const_int(cd.rhs) == 0 or q.const_int(cd.lhs) == 0):
+                both = prr.of_operand(cd.lhs) | prr.of_operand(cd.rhs)
+                if has_root(both, "field", "MailboxHeader", "length") or any(x[0] == "call" and x[1].endswith("checked_sub") for x in both):
+                    zt = cd.true_target() if cd.op == "Eq" else cd.false_target()
+                    # leads to an early error return?
+                    errs = {x[0] for x in q.aggregates(r, "Result", "Err")}
+                    if zt is not None and q.edge_dominated(r, cd.bb, zt) & errs:
+                        zero.append(cd)
+        dz = {"last-segment-test": len(last_sw) == 1, "zero-progress-guards": len(zero)}
+        if len(last_sw) == 1 and zero:
+            not_last = last_sw[0].false_target()
+            dom = q.edge_dominated(r, last_sw[0].bb, not_last) if not_last is not None else set()
+            dz["guard-only-for-non-last-segment"] = all(cd.bb in dom for cd in zero)
+        rep.ob(P, "empty-last-segment-accepted" + tag, all(v for k, v in dz.items() if k != "zero-progress-guards"), "an upload segment carrying no data is an error only when it is not the last segment (a device may end the transfer with an empty last segment); %s" % dz, loc=r.span)
     rep.ob(P, "first-fragment-kept" + tag, bool(d) and all(d.values()), "the bytes the initiate upload response already carries are copied into the destination before the first segment request, and segments are appended after them; %s" % d, loc=r.span)
     # 4. emergency before any SDO decode, data at byte 8
     em = None
